@@ -1,18 +1,34 @@
 /-
-Model/ValidateAll.lean — `validate()` of GNFA, DPDA, NPDA, DTM, NTM, MNTM (C19).
+Model/ValidateAll.lean — `validate()` of GNFA, DPDA, NPDA, DTM, NTM, MNTM, and the
+reserved-name checks that `validate()` of DFA, NFA and of the PDA classes perform first (C19).
 
 Definitions as data only (no run semantics): exactly the constructor parameters, sets as
 lists, dicts as association lists in insertion order.  Every `validate` performs the checks
-in the order of the code and returns the first error.  (DFA and NFA: Model/DFA.lean,
-Model/NFA.lean.)
+in the order of the code and returns the first error.  (DFA and NFA: the checks on the
+transition table, the initial and the final states are `AV.DFA.validate`, `AV.NFA.validate`
+of Model/DFA.lean, Model/NFA.lean; the complete `validate()` of the code — reserved names
+first — is `DFA.validateDef`, `NFA.validateDef` below.)
+
+Reserved names.  Since fixes b159ae7 / 07f4843 / cb4efab / f47420f the library refuses the two
+values it uses as markers itself: Python's `None` as a state name of a DFA / NFA or as the key of
+a row of its transition table (the "no state" marker of a DFA run and of `_minify`), the empty string as an input symbol of a DFA / NFA
+(the λ-marker) and as a stack symbol of a PDA (`PDAStack.top()` of an empty stack).  The
+abstract name types `σ`, `α`, `γ` of the model are arbitrary types, so *which* of their
+elements stands for `None` / `""` is an explicit interpretation (`Reserved`, resp. a
+predicate on stack symbols) that the definitions are validated under.  With the
+interpretation `Reserved.absent` ("no name is `None` or `""`" — the name types of the models
+of C01–C17, where `none : Option σ` is the sink and `none : Option α` is λ and neither can
+be a name) `validateDef` is `validate`.
 
 Mirrors
+  automata/fa/fa.py           _validate_reserved_names
   automata/base/automaton.py  _validate_initial_state, _validate_initial_state_transitions,
                               _validate_final_states, __init__/__post_init__ (options)
   automata/fa/gnfa.py         _validate_transition_invalid_symbols, _validate_transition_end_states,
                               _validate_final_state, validate, __post_init__
   automata/pda/pda.py         _validate_transition_invalid_input_symbols, …_stack_symbols,
                               _validate_initial_stack_symbol, _validate_acceptance, validate
+                              (first statement: `"" in self.stack_symbols`)
   automata/pda/dpda.py        _validate_transition_invalid_symbols, …_isolated_lambda_transitions,
                               …_lambda_transition_sibling
   automata/pda/npda.py        _validate_transition_invalid_symbols
@@ -27,6 +43,8 @@ Literals of the source (direction letters, acceptance modes) come from the regen
 triple, a non-iterable where a set is expected, …) are outside the model.
 -/
 import AutomataVerif.Model.Basic
+import AutomataVerif.Model.DFA
+import AutomataVerif.Model.NFA
 import AutomataVerif.Generated.ValidateLits
 
 namespace AV.VA
@@ -34,6 +52,48 @@ open AV
 
 /-- `self.final_states - self.states` is empty. -/
 def subsetB {β : Type} [DecidableEq β] (l r : List β) : Bool := l.all fun x => decide (x ∈ r)
+
+/-! ## reserved names: DFA, NFA -/
+
+/-- Interpretation of the abstract name types: which state names stand for Python's `None`
+and which symbols stand for the empty string `""`. -/
+structure Reserved (σ α : Type) where
+  isNone : σ → Bool
+  isEmptyStr : α → Bool
+
+/-- Name types that cannot express `None` / `""` (the models of C01–C17). -/
+def Reserved.absent {σ α : Type} : Reserved σ α := ⟨fun _ => false, fun _ => false⟩
+
+/-- The obvious concrete interpretation: state names `Option σ` with `none` for Python's `None`,
+symbols `String` with `""` for the empty string. -/
+def Reserved.python {σ : Type} : Reserved (Option σ) String := ⟨Option.isNone, fun s => s == ""⟩
+
+/-- `FA._validate_reserved_names`: `None in self.states or None in self.transitions` (`keys` = the
+keys of the transition dict; fix f47420f) → `InvalidStateError`, then `"" in self.input_symbols`
+→ `InvalidSymbolError`. -/
+def faValidateReserved {σ α : Type} (R : Reserved σ α) (states keys : List σ) (syms : List α) : Res Unit :=
+  (guardE (!(states.any R.isNone || keys.any R.isNone)) (.lib .invalidStateError)).andThen <|
+  guardE (!syms.any R.isEmptyStr) (.lib .invalidSymbolError)
+
+namespace DFA
+variable {σ α : Type} [DecidableEq σ] [DecidableEq α]
+
+/-- `DFA.validate` of the code: `_validate_reserved_names()` first, then the checks of
+`AV.DFA.validate` (start states, rows, initial state, final states). -/
+def validateDef (R : Reserved σ α) (d : DFA σ α) : Res Unit :=
+  (faValidateReserved R d.states (akeys d.trans) d.syms).andThen d.validate
+
+end DFA
+
+namespace NFA
+variable {σ α : Type} [DecidableEq σ] [DecidableEq α]
+
+/-- `NFA.validate` of the code: `_validate_reserved_names()` first, then the checks of
+`AV.NFA.validate`. -/
+def validateDef (R : Reserved σ α) (n : NFA σ α) : Res Unit :=
+  (faValidateReserved R n.states (akeys n.trans) n.syms).andThen n.validate
+
+end NFA
 
 /-! ## GNFA -/
 
@@ -157,6 +217,11 @@ def pdaValidateTail {σ γ : Type} [DecidableEq σ] [DecidableEq γ]
   (guardE (subsetB finals states) (.lib .invalidStateError)).andThen <|
   guardE (decide (mode ∈ Gen.Validate.pdaAcceptanceModes)) (.lib .invalidAcceptanceModeError)
 
+/-- The first statement of `PDA.validate` (fix cb4efab): `"" in self.stack_symbols` →
+`InvalidSymbolError`.  `isEmptyStr` says which stack symbols stand for the empty string. -/
+def pdaValidateReserved {γ : Type} (isEmptyStr : γ → Bool) (stackSyms : List γ) : Res Unit :=
+  guardE (!stackSyms.any isEmptyStr) (.lib .invalidSymbolError)
+
 namespace DPDA
 variable {σ α γ : Type} [DecidableEq σ] [DecidableEq α] [DecidableEq γ]
 
@@ -185,10 +250,14 @@ def validateRow (d : DPDA σ α γ) (paths : List (Option α × List (γ × (σ 
        | some _ => .ok ()).andThen <|
       guardE (decide (g ∈ d.stackSyms)) (.lib .invalidSymbolError)
 
-/-- `PDA.validate` for a DPDA. -/
+/-- `PDA.validate` for a DPDA after its first statement (the reserved stack symbol). -/
 def validate (d : DPDA σ α γ) : Res Unit :=
   (firstErr d.trans fun kv => d.validateRow kv.2).andThen <|
   pdaValidateTail d.states d.stackSyms d.init d.initStack d.finals d.mode
+
+/-- `PDA.validate` for a DPDA: `"" in self.stack_symbols` first, then `validate`. -/
+def validateDef (isEmptyStr : γ → Bool) (d : DPDA σ α γ) : Res Unit :=
+  (pdaValidateReserved isEmptyStr d.stackSyms).andThen d.validate
 
 end DPDA
 
@@ -201,10 +270,14 @@ def validateRow (d : NPDA σ α γ) (paths : List (Option α × List (γ × List
     (pdaInputSymOk d.syms e.1).andThen <|
     firstErr (akeys e.2) fun g => guardE (decide (g ∈ d.stackSyms)) (.lib .invalidSymbolError)
 
-/-- `PDA.validate` for an NPDA. -/
+/-- `PDA.validate` for an NPDA after its first statement (the reserved stack symbol). -/
 def validate (d : NPDA σ α γ) : Res Unit :=
   (firstErr d.trans fun kv => d.validateRow kv.2).andThen <|
   pdaValidateTail d.states d.stackSyms d.init d.initStack d.finals d.mode
+
+/-- `PDA.validate` for an NPDA: `"" in self.stack_symbols` first, then `validate`. -/
+def validateDef (isEmptyStr : γ → Bool) (d : NPDA σ α γ) : Res Unit :=
+  (pdaValidateReserved isEmptyStr d.stackSyms).andThen d.validate
 
 end NPDA
 
